@@ -35,3 +35,7 @@
 (define-fun i2f ((i Int)) F64 ((_ to_fp 11 53) RNE (to_real i)))
 (define-fun mapAllocated ((a (Array Int Bool)) (r Int)) Bool (select a r))
 ;@heap mapAllocated A_M_Str_Val
+(define-fun fnAllocated ((a (Array Int Bool)) (r Int)) Bool (select a r))
+;@heap fnAllocated A_H_interpreter_Function
+(define-fun varStmtAllocated ((a (Array Int Bool)) (r Int)) Bool (select a r))
+;@heap varStmtAllocated A_H_ast_VarStmt
